@@ -31,7 +31,9 @@ print(f"MANIFEST.json: {len(checks)} checks, {len(na)} not_applicable")
 # merge known_findings.d/*.json fragments into known_findings.json (single committed list)
 kf = V / "known_findings.json"
 data = json.loads(kf.read_text()) if kf.exists() else {"findings": [], "fixed": []}
-byid = {x["id"]: x for x in data.get("findings", [])}
+frag_props = {f.stem for f in (V / "known_findings.d").glob("*.json")}
+# entries of a property that has a fragment come only from the fragment (no stale copies survive)
+byid = {x["id"]: x for x in data.get("findings", []) if x.get("property") not in frag_props}
 fixed = {json.dumps(x, sort_keys=True): x for x in data.get("fixed", [])}
 for f in sorted((V / "known_findings.d").glob("*.json")):
     d = json.loads(f.read_text())
